@@ -60,7 +60,12 @@ RULE = ("filters ZFilter/LinearFilter(b, a) and z-expressions with small int / d
         "nothing, wrong keyword, self missing) x 33 kinds of frequency object (sizes 0..4, non-numbers among the "
         "elements) x filter classes / cascade / parallel / nested targets, lazy results read len+2 times; dft with every "
         "positional/keyword split, 11 spellings of normalize incl. omitted, 9 block kinds (5 with len(), 4 read-once), "
-        "10 kinds of frequency object, unbindable calls.  Non-trivial = the impl returned "
+        "10 kinds of frequency object, unbindable calls; POLES: ZFilter(b, (1 - r z^-1) q), r = +-1, small int "
+        "coefficients, q bounded away from zero, probed at 17 float frequencies whose exact point is the pole or next "
+        "to it (0, -0.0, int 0, +-pi, 2pi .. 7pi, 1e-13, -2^-45, 1e-20, 1e-100, +-pi/2): nan (the float nan, not a complex "
+        "nan) exactly at omega = 0, a large finite value everywhere else, compared with the exact value at the exact "
+        "binary64 point cexp(-1j*omega); dft(c*x + y) against c*dft(x) + dft(y) for all frequencies / both modes; every "
+        "FIR / exponential run also against the C04 specification (fspec).  Non-trivial = the impl returned "
         "at least one finite non-zero value, a predicted nan or a predicted exception; distinct = distinct JSON case")
 TRUSTED = [
     "the call: hand-written Lean model ALV/Model/C12Call.lean of lazy_misc.elementwise's wrapper (decorator default, "
@@ -77,6 +82,10 @@ TRUSTED = [
     "Props.C12.unit_point_is_exp proves that every unit-modulus point is exp(-i omega) for omega = -arg w",
     "float regime: impl values are compared with the exact Gaussian-rational value under 1e-9*(1+|expected|); "
     "cmath.exp / complex arithmetic rounding is bounded a priori per case, not modelled",
+    "poles: the point handed to the driver is the exact rational value of the binary64 number cmath.exp(-1j*omega), "
+    "computed by the harness with the same expression as lazy_filters.py:303; for small int coefficients the float "
+    "evaluation next to a pole is exact up to relative rounding (measured <= 2.3e-12 relative over 18 000 random "
+    "filters), so the model's exact value at that point is what the code must return",
 ]
 ASSUMPTIONS = [
     "histories: numpoly/denpoly are compared (as the ratio at the probe points) only where the pair is defined and "
@@ -84,16 +93,29 @@ ASSUMPTIONS = [
     "(ParallelFilter.numpoly/denpoly of equal denominators is the inconsistent pair recorded under C05); calling a "
     "bank is compared where every leaf is FIR with int/dyadic coefficients (exact); heaps are acyclic",
     "denominator bounded away from zero at the probed frequency (a-priori rounding bound <= 2e-10), except the exact "
-    "nan case: denominator exactly zero at omega = 0 (w = 1 is the only point of the circle that floats hit exactly)",
+    "nan case: denominator exactly zero at omega = 0 (w = 1 is the only point of the circle that floats hit exactly) "
+    "and the entry `pole` (first-order factor 1 -+ z^-1 times a well-conditioned q, int coefficients): at fl(pi), "
+    "fl(2 pi), ... and tiny omega the code evaluates NEXT to the pole and returns a value ~1e13..1e100, never nan; "
+    "omega below ~1e-300 overflows to inf (float range, not modelled)",
     "frequency containers: scalar, list, tuple, deque, set, frozenset, Stream (finite and endless), generator, map, range; "
     "list_iterator / dict_keys / reversed (TypeError always), dict / bytes (TypeError unless empty) and str (not "
     "iterated) are modelled as what elementwise does today",
     "the call: a container handed to a BANK as one element (nested containers) and the filter object itself as a "
-    "frequency are outside the model (`unmodelled`, never generated); numpy arrays are not available here",
+    "frequency are outside the model (`unmodelled`, never generated); numpy arrays are not available here.  Observed "
+    "on /repo (round 4, not modelled): bank.freq_response([[w1, w2]]) hands the inner list to every member, then "
+    "reduces the members' LISTS with * / +: cascade of >= 2 members -> TypeError (list * list), parallel -> the "
+    "CONCATENATION of the members' response lists (tuple / deque alike; Stream members add / multiply element by "
+    "element; generators and sets -> TypeError); a single-member bank returns the member's list.  A filter object as "
+    "the frequency is Iterable (LinearFilter.__iter__), so the wrapper builds type(arg)(data) = a new ZFilter.  A filter "
+    "with Stream coefficients does not raise: freq_response returns the Stream of the instantaneous transfer "
+    "functions (the nan test is skipped for a Stream denominator); a bank member that is a plain callable raises "
+    "AttributeError (no freq_response) at the first element computation (an EMPTY eager container still comes back "
+    "empty); a source iterator that raises mid-iteration behaves like an element computation that raises: lazy "
+    "results show the items, that exception once, then StopIteration; eager containers and dft let it through",
 ]
 
 MANIFEST = {
-    "text": ("Lean 4 theorems (50, no sorry/axiom) about a hand-written executable model of freq_response "
+    "text": ("Lean 4 theorems (63, no sorry/axiom) about a hand-written executable model of freq_response "
              "(LinearFilter.__init__ normalisation, Poly.__call__ paths, nan test), Cascade/Parallel banks to any "
              "nesting depth, dft and the FIR instance of the generated filter loop: transfer function in every field "
              "and over C at w = exp(-j omega), cascade = product, parallel = sum — for the bank as it is NOW after any "
@@ -105,7 +127,10 @@ MANIFEST = {
              "per-element broadcast over the object bound to freq (scalar -> scalar, list/tuple/deque/set -> same "
              "kind, generator/Stream/chain -> lazy, read semantics with exceptions mid-stream; unbindable calls -> "
              "TypeError per element, KeyError without frequency object), dft's default / truthiness / read-once "
-             "blocks / binding; tied to /repo by a differential "
+             "blocks / binding; nan IFF the denominator vanishes (never another exception), the poles at omega = 0 / pi "
+             "exactly and next to them, the dict form of the specification = the dense one, the FIR run = C04's "
+             "specification of the filter call (steady state and DFT of the impulse response stated on C04's run, over "
+             "Q[i] at Pythagorean points read in C), dft as coded linear for all blocks; tied to /repo by a differential "
              "correspondence in the float regime (exact Gaussian-rational value vs impl float, a-priori rounding bound)"),
     "note": ("Trusted: Lean kernel, axioms propext/Classical.choice/Quot.sound, the Python correspondence harness "
              "(incl. the omega <-> w mapping by atan2 and the tolerance rule 1e-9*(1+|expected|) with a per-case "
